@@ -242,8 +242,110 @@ def run_lin_job(job, scratch):
             "ttlc": st["wall"] + st2["wall"], "sample": sample}
 
 
+def run_lock_job(job, scratch):
+    """C06: lock programs of RPCs run alone -> LockReplay.tla explores all pairs -> predicted deadlocks are replayed."""
+    trace = os.path.join(scratch, job["name"] + ".ndjson")
+    cmd = [os.path.join(BIN, "vdrive")] + job["driver"] + ["-out", trace]
+    t0 = time.time()
+    p = subprocess.run(cmd, capture_output=True, text=True, timeout=3000, cwd=scratch)
+    if p.returncode != 0:
+        raise Infra("driver failed: %s\n%s" % (" ".join(cmd), (p.stdout + p.stderr)[-3000:]))
+    tdrv = time.time() - t0
+    out, st = run_tlc("LockReplay.tla", "LockReplay.cfg", scratch, env={"TRACE": trace}, workers=4, timeout=3000, xmx="6g")
+    if "No error has been found" not in out:
+        raise Infra("LockReplay failed:\n" + out[-3000:])
+    progs = {}
+    viols = []
+    seed = int(job["driver"][job["driver"].index("-seed") + 1])
+    for ln in open(trace):
+        e = json.loads(ln)
+        if e.get("ev") != "prog":
+            continue
+        progs[e["id"]] = e
+        c = e["call"]
+        if c["st"] in ("TIMEOUT", "PANIC"):
+            viols.append({"line": 0, "seg": e["group"], "rules": ["ALL,C06,C11:no-reply-" + c["st"]], "ev": "prog", "proc": c["proc"],
+                          "job": job["name"], "driver_cmd": job["driver"], "event": c, "driver": "lockprogs", "seed": seed,
+                          "context": ["alone on base state %d, warm=%s" % (e["group"], e["warm"]), json.dumps(e["steps"])]})
+        elif e["txns"] > 6:
+            viols.append({"line": 0, "seg": e["group"], "rules": ["C06:request-retries-without-bound"], "ev": "prog", "proc": c["proc"],
+                          "job": job["name"], "driver_cmd": job["driver"], "event": c, "driver": "lockprogs", "seed": seed,
+                          "context": ["%d transactions" % e["txns"]]})
+    dl = set()
+    for ln in out.splitlines():
+        ln = ln.strip()
+        if ln.startswith('"DEADLOCK '):
+            d = json.loads(json.loads(ln)[9:])
+            dl.add((d["group"], d["p1"], d["p2"], d["pc1"], d["pc2"]))
+
+    def uses_apply(pr, pc):
+        steps = pr["steps"]
+        heldctx = {}
+        for stp in steps[:pc - 1]:
+            if stp["op"] == "acq":
+                heldctx[stp["inum"]] = stp["ctx"]
+            else:
+                heldctx.pop(stp["inum"], None)
+        return steps[pc - 1]["ctx"] == "apply" or "apply" in heldctx.values()
+
+    known_apply = []
+    fresh = []
+    for (g, p1, p2, pc1, pc2) in sorted(dl):
+        a, b = progs[p1], progs[p2]
+        if (pc1 <= len(a["steps"]) and uses_apply(a, pc1)) or (pc2 <= len(b["steps"]) and uses_apply(b, pc2)):
+            known_apply.append((g, p1, p2, pc1, pc2))
+        else:
+            fresh.append((g, p1, p2, pc1, pc2))
+
+    def confirm(g, p1, p2, pc1, pc2):
+        a, b = progs[p1], progs[p2]
+        n1 = sum(1 for x in a["steps"][:pc1 - 1] if x["op"] == "acq")
+        n2 = sum(1 for x in b["steps"][:pc2 - 1] if x["op"] == "acq")
+        spec = os.path.join(scratch, "confirm-%s-%d-%d.json" % (job["name"], p1, p2))
+        json.dump({"Seed": seed, "Group": g, "Warm": a["warm"] and b["warm"], "C1": a["call"], "C2": b["call"], "N1": n1, "N2": n2},
+                  open(spec, "w"))
+        q = subprocess.run([os.path.join(BIN, "vdrive"), "lockconfirm", "-spec", spec], capture_output=True, text=True, timeout=120)
+        os.remove(spec)
+        m = re.search(r"CONFIRMED=(\w+) ?(.*)", q.stdout)
+        return (m.group(1) == "true", m.group(2)) if m else (False, "no result: " + q.stdout[-200:] + q.stderr[-200:])
+
+    def mkviol(t, rules, wedge, extra):
+        g, p1, p2, pc1, pc2 = t
+        a, b = progs[p1], progs[p2]
+        ev = dict(a["call"])
+        ev["wedge"] = wedge
+        return {"line": 0, "seg": g, "rules": rules, "ev": "deadlock", "proc": a["call"]["proc"], "job": job["name"],
+                "driver_cmd": job["driver"], "event": ev, "driver": "lockprogs", "seed": seed,
+                "context": ["RPC 1: " + summ(a["call"]), "program 1: " + json.dumps(a["steps"]), "blocked at step %d" % pc1,
+                            "RPC 2: " + summ(b["call"]), "program 2: " + json.dumps(b["steps"]), "blocked at step %d" % pc2, extra]}
+
+    unconfirmed = 0
+    if known_apply:   # demonstrate the known finding on the real code once
+        ok, info = confirm(*known_apply[0])
+        if ok:
+            viols.append(mkviol(known_apply[0], ["ALL,C06,C11:no-reply-TIMEOUT"], "apply",
+                                "%d predicted deadlocks involve dir.Apply; this one replayed on the real server: both RPCs hang" % len(known_apply)))
+    nconf = 0
+    for t in fresh[:12]:
+        if nconf >= 4:
+            break
+        ok, info = confirm(*t)
+        nconf += 1 if ok else 0
+        if ok:
+            viols.append(mkviol(t, ["C06:deadlock-confirmed-on-the-real-server"], info, "predicted by LockReplay and replayed: both RPCs hang"))
+        else:
+            unconfirmed += 1
+    os.remove(trace)
+    return {"name": job["name"], "viols": viols, "events": len(progs), "segments": len({e["group"] for e in progs.values()}),
+            "calls": sum(e["count"] for e in progs.values()), "states": st["distinct"], "transitions": st["generated"],
+            "tdrv": tdrv, "ttlc": st["wall"], "sample": [summ(e["call"]) + " :: " + json.dumps(e["steps"])[:200] for e in list(progs.values())[:4]],
+            "predicted_deadlocks": len(dl), "predicted_involving_apply": len(known_apply), "predicted_unconfirmed": unconfirmed}
+
+
 def run_job(job, scratch):
     """job: {name, driver: [args...], module, cfg}. Returns result dict."""
+    if job.get("kind") == "lock":
+        return run_lock_job(job, scratch)
     if job.get("kind") == "lin":
         return run_lin_job(job, scratch)
     if job.get("kind") == "mc":
@@ -456,6 +558,25 @@ def plan(prop, tier, seed, known):
         sel = range(parts) if not q else [(seed * 4 + k) % parts for k in range(4)]
         for k in sel:
             jobs.append({"name": "win%d" % k, "kind": "lin", "driver": ["windows", "-part", str(k), "-parts", str(parts)]})
+    elif prop == "C11":
+        for i in range(2 if q else 16):
+            jobs.append({"name": "argsweep%d" % i, "module": "NfsTrace.tla", "cfg": "NfsTrace.cfg",
+                         "driver": ["argsweep", "-seed", str(seed * 100 + i), "-segs", "1", "-steps", "600" if q else "3000", "-avoid", av]})
+        for i in range(2 if q else 16):
+            jobs.append(seq_job("mixstale%d" % i, seed * 100 + 20 + i, "stale,mix,limits", 3 if q else 8, 200 if q else 400, av, disk=30000))
+        jobs.append(probe_job(prop, av))
+    elif prop == "C06":
+        n = 4 if q else 16
+        per = 3 if q else 5
+        for i in range(n):
+            jobs.append({"name": "lockprogs%d" % i, "kind": "lock",
+                         "driver": ["lockprogs", "-seed", str(seed), "-part", str(i * per), "-segs", str(per), "-steps", "80" if q else "200"]})
+        # hangs under real concurrency (random schedules and directed windows) count as well
+        for i in range(2 if q else 16):
+            jobs.append({"name": "lin%d" % i, "kind": "lin",
+                         "driver": ["conc", "-seed", str(seed * 100 + 40 + i), "-segs", "10" if q else "40", "-steps", "10",
+                                    "-clients", str(3 + i % 2), "-avoid", av]})
+        jobs.append(probe_job(prop, av))
     elif prop == "C14":
         n = 4 if q else 32
         for i in range(n):
@@ -568,6 +689,9 @@ def run_check(prop, tier, seed):
             "exhaustive_models": [{"name": r["name"], "distinct_states": r["states"], "proof": bool(r.get("proof"))} for r in res if r.get("mc")],
             "jobs": [{"name": r["name"], "segments": r["segments"], "calls": r["calls"], "driver_s": round(r["tdrv"], 2),
                       "tlc_s": round(r["ttlc"], 2)} for r in res],
+            "predicted_deadlocks": sum(r.get("predicted_deadlocks", 0) for r in res),
+            "predicted_deadlocks_involving_known_finding": sum(r.get("predicted_involving_apply", 0) for r in res),
+            "predicted_deadlocks_not_reproduced": sum(r.get("predicted_unconfirmed", 0) for r in res),
             "other_property_rejections": notes,
             "known_findings_reproduced": sorted(kf_seen),
             "explanation": "each segment is a run of the real server (built from /repo, -tags verif) recorded as ndjson and "
